@@ -190,6 +190,10 @@ theorem runInv_simInv (sp0 : Sp) : SimInv2 (fun x => RunInv sp0 x.st) (fun _ _ =
       obtain ⟨a, b⟩ := pollWaiter_absfx { x.st with waiters := x.st.waiters ++ [{ id := x.nextWaiter, done := x.nextFlag - 1 }] } x.nextWaiter
       exact runInv_congr hq.1.cfg (inv_pollWaiter _ (inv_congr rfl rfl rfl h.2.1)) a b h
     · exact h
+  clone := fun x f h => by
+    have hq := quiet_pollWaiter { x.st with waiters := x.st.waiters ++ [{ id := x.nextWaiter, done := f }] } x.nextWaiter
+    obtain ⟨a, b⟩ := pollWaiter_absfx { x.st with waiters := x.st.waiters ++ [{ id := x.nextWaiter, done := f }] } x.nextWaiter
+    exact runInv_congr hq.1.cfg (inv_pollWaiter _ (inv_congr rfl rfl rfl h.2.1)) a b h
 
 /-- **C09, whole run**: for every behaviour script, every operation script (any controls at any priority, time, handle
     drops) and every resolution of every race, the observable state and the effect log of every reachable state are those
